@@ -1,6 +1,7 @@
 package main
 
 import (
+	"regexp"
 	"fmt"
 	"go/token"
 	"path/filepath"
@@ -33,3 +34,8 @@ func (x *Exec) shortPos(p token.Pos) string {
 
 // templateOnly: per replay template, the obligation-name fragments it covers (//gcv:only).
 var templateOnly = map[string][]string{}
+
+// pathGhostRe: clause text that mentions a path ghost (call counters, last results, last
+// random draw, atomic-change ghosts): facts about the path of the function under
+// verification, never exported to callers.
+var pathGhostRe = regexp.MustCompile(`\b(ncalls|lastret|lastval|lastrand|nchanges|lastold|lastnew)\(`)
